@@ -260,6 +260,90 @@ func init() {
 		},
 		outside: "argument values outside the catalogue; string results are not constrained (documented sentinels such as <invalid_stack>, unspecified, uninitialized)",
 	})
+
+	isMut := func(full string) bool { return auto.Mut[full] }
+	register(&property{
+		id: "C09",
+		gen: func(tier string, seed int) []symx.CaseSpec {
+			var out []symx.CaseSpec
+			variants := []int{0, 3}
+			if tier == "thorough" {
+				variants = []int{0, 1, 2, 3, 4, 7}
+			}
+			for i := range auto.Stack {
+				for _, v := range variants {
+					out = append(out, cs("VH_C09_Stack", i, v))
+				}
+			}
+			for i := range auto.Cond {
+				for _, v := range []int{0, 1, 2, 3} {
+					out = append(out, cs("VH_C09_Cond", i, v))
+				}
+			}
+			// pairs: every mutator followed by every mutator (thorough), a seeded sample (quick)
+			var muts []int
+			for i, n := range auto.Stack {
+				if isMut("Stack." + n) {
+					muts = append(muts, i)
+				}
+			}
+			k := 0
+			for _, a := range muts {
+				for _, b := range muts {
+					k++
+					if tier == "thorough" || (k+seed)%23 == 0 {
+						out = append(out, cs("VH_C09_StackPair", a, b, 0))
+					}
+				}
+			}
+			return out
+		},
+		boundsText: map[string]string{
+			"quick":    "every exported method of Stack and Condition of the tree under test x argument variants (ints/bools all values, strings 4, any: 12 catalogue values, variadics 0..2) on a read-only receiver with nested content (Stack/alias, Condition holding a Stack, text, int), all other option bits symbolic, closures installed / not, mutex on / off; a seeded 1/23 sample of ordered mutator pairs",
+			"thorough": "as quick with capacity variants and all ordered pairs of declared mutators",
+		},
+		outside: "receivers with other content shapes; sequences longer than two calls",
+		assumptions: []string{"documented exceptions: SetReadOnly/ReadOnly (only the read-only bit), SetErr (only the error), Condition.Init (replaces the handle's instance; the old instance is compared)"},
+	})
+
+	register(&property{
+		id: "C11",
+		gen: func(tier string, seed int) []symx.CaseSpec {
+			var out []symx.CaseSpec
+			variants := []int{0, 3}
+			if tier == "thorough" {
+				variants = []int{0, 1, 2, 3, 4, 7}
+			}
+			for i, n := range auto.Stack {
+				if isMut("Stack." + n) {
+					continue
+				}
+				for _, v := range variants {
+					out = append(out, cs("VH_C11_Stack", i, v))
+				}
+			}
+			for i, n := range auto.Cond {
+				if isMut("Condition." + n) {
+					continue
+				}
+				for _, v := range []int{0, 1, 2, 3} {
+					out = append(out, cs("VH_C11_Cond", i, v))
+				}
+			}
+			for i, n := range auto.Aux {
+				if !isMut("Auxiliary." + n) {
+					out = append(out, cs("VH_C11_Aux", i))
+				}
+			}
+			return out
+		},
+		boundsText: map[string]string{
+			"quick":    "every exported method of Stack, Condition and Auxiliary that is not in the declared mutator list (/verif/harness/mutators.txt) x argument variants, on a receiver with nested content, option bits (incl. read-only) symbolic, closures installed / not, mutex on / off",
+			"thorough": "as quick with capacity variants",
+		},
+		outside: "free-running parallel executions: concurrency safety is inferred from the absence of any store into pre-existing memory during the query (engine write log over all explored paths); a store found by the engine is confirmed by running the query from two goroutines under the Go race detector",
+		assumptions: []string{"Go memory model: calls that perform no write to shared memory cannot race with each other", "Stack.Addr / Condition.Addr results are not compared between repetitions in the engine (pointer text)"},
+	})
 }
 
 var _ = fmt.Sprint
